@@ -2,6 +2,7 @@
 //! answer per line. Every job runs under catch_unwind; a panic is reported as {"panic": msg}.
 mod codec;
 mod rel;
+mod rw;
 
 use codec::*;
 use qrlew::data_type::function::Function as _;
@@ -151,6 +152,25 @@ fn run(job: &J) -> R<J> {
                 (DataType::Date(d), DataType::DateTime(c)) => direct!(d, c, DataType::DateTime, Value::Date),
                 (DataType::DateTime(d), DataType::Date(c)) => direct!(d, c, DataType::Date, Value::DateTime),
                 _ => json!({"image": {"err": "no direct injection for this pair"}, "values": []}),
+            }
+        }
+        "int_values" => {
+            // Intervals<i64>: the decision of into_values (values_len < max_value_len) and, when it enumerates, how many values
+            use qrlew::data_type::intervals::Values as _;
+            let a = json_to_dt(&job["dt"])?;
+            let cap = job["enumerate_cap"].as_i64().unwrap_or(2_000_000);
+            match a {
+                DataType::Integer(i) => guarded(|| {
+                    let len = i.values_len();
+                    let enumerates = len.map(|l| l < i.max_value_len()).unwrap_or(false);
+                    let width = match (i.min(), i.max()) {
+                        (Some(a), Some(b)) => Some((*b as i128) - (*a as i128)),
+                        _ => None,
+                    };
+                    let n = if enumerates && width.map(|w| w <= cap as i128).unwrap_or(false) { Some(i.values().len()) } else { None };
+                    json!({"values_len": len, "max_value_len": i.max_value_len(), "enumerates": enumerates, "hull_width": width.map(|w| w.to_string()), "n_values": n})
+                }),
+                _ => json!({"err": "not an Integer type"}),
             }
         }
         "as_data_type" => {
